@@ -17,7 +17,8 @@ def main():
         sys.exit(2)
     kind = rp.get("kind", "kw")
     if kind == "kw":
-        r = driver.rt_call("pyvc.rt_kw", {"cmd": "replay", "root": root, "draft": f["draft"], "schema": f["schema"], "instance": f["instance"]}, root)
+        r = driver.rt_call("pyvc.rt_kw", {"cmd": "replay", "root": root, "draft": f["draft"], "schema": f["schema"], "instance": f["instance"],
+                                          "mode": f.get("mode", rp.get("mode", "verdict"))}, root)
     else:
         r = driver.rt_call("pyvc.rt_" + kind, {"cmd": "replay", "root": root, "failure": f}, root)
     print(json.dumps(r, indent=1))
